@@ -86,6 +86,14 @@ impl ErrorReporter for TermErrorReporter {
     }
 }
 
+/// Convert a byte offset into `source` to the number of characters that start before it.
+fn byte_to_char_offset(source: &str, byte_offset: usize) -> usize {
+    source
+        .char_indices()
+        .take_while(|(idx, _)| *idx < byte_offset)
+        .count()
+}
+
 /// Container for data that will be used to construct a Snippet
 #[derive(Default)]
 pub struct SnippetData {
@@ -144,7 +152,11 @@ impl<'a> SnippetBuilder<'a> {
                     .annotations
                     .iter()
                     .map(|anno| SourceAnnotation {
-                        range: anno.0,
+                        // the parser works with byte offsets, annotate-snippets with char offsets
+                        range: (
+                            byte_to_char_offset(self.data.source.as_str(), (anno.0).0),
+                            byte_to_char_offset(self.data.source.as_str(), (anno.0).1),
+                        ),
                         label: anno.1.as_str(),
                         annotation_type: AnnotationType::Error,
                     })
